@@ -419,3 +419,110 @@ def launch_triple(item):
     out["log"] = log()
     out["state"] = observe(info)
     return out
+
+
+def launch_holder(item):
+    """The scheduler side of the job lock: a process H takes the run lock through the tree's own connector lock class
+    (LocalConnector.lock(path).__enter__, what Scheduler.aio_start does), a job process A is launched meanwhile (it waits for the
+    lock; with k > 0 it stops itself at its k-th traced line event and is resumed after H has let go), H leaves the lock
+    (__exit__), A - now owner - is held inside its body, and a second job process B is launched: it must wait."""
+    import time
+    info = make_job(item["variant"])
+    restore(info, item["state"])
+    d = Path(info["dir"])
+    hold, logp, held, release = d / "hold", d / "exec.log", d / "h.held", d / "h.release"
+    for f in (held, release):
+        if f.exists():
+            f.unlink()
+    hold.write_text("")
+    devnull = os.open(os.devnull, os.O_WRONLY)
+
+    def log():
+        return logp.read_text().split() if logp.exists() else []
+
+    def wait_for(pred, timeout):
+        t0 = time.time()
+        while time.time() - t0 < timeout:
+            if pred():
+                return True
+            time.sleep(0.001)
+        return pred()
+
+    def spawn(k):
+        pid = os.fork()
+        if pid == 0:
+            try:
+                child_pause(info["script"], k, devnull)
+            finally:
+                os._exit(99)
+        return pid
+
+    h = os.fork()
+    if h == 0:
+        code = 0
+        try:
+            os.dup2(devnull, 1)
+            os.dup2(devnull, 2)
+            from experimaestro.connectors.local import LocalConnector
+            lock = LocalConnector.instance().lock(Path(info["lock"]))
+            lock.__enter__()
+            held.write_text("")
+            t0 = time.time()
+            while not release.exists() and time.time() - t0 < 20:
+                time.sleep(0.001)
+            lock.__exit__(None, None, None)
+        except BaseException:  # noqa
+            code = 3
+        finally:
+            os._exit(code)
+    out = {"hang": False, "phases": []}
+    exited = {}
+    pids = [h]
+    if not wait_for(held.exists, 8):
+        out["phases"].append("holder-did-not-lock")
+    a = spawn(item["k"])
+    pids.append(a)
+    a_stopped = False
+    if item["k"]:
+        _, st = os.waitpid(a, os.WUNTRACED)
+        a_stopped = os.WIFSTOPPED(st)
+        if not a_stopped:
+            exited[a] = os.waitstatus_to_exitcode(st)
+    else:
+        time.sleep(item.get("settle", 0.25))
+    release.write_text("")
+    _, st = os.waitpid(h, 0)
+    exited[h] = os.waitstatus_to_exitcode(st)
+    if a_stopped:
+        os.kill(a, signal.SIGCONT)
+    if wait_for(lambda: log().count("start") >= 1, 8):
+        out["phases"].append("first-body-held")
+        b = spawn(0)
+        pids.append(b)
+        if wait_for(lambda: log().count("start") >= 2, item.get("watch", 0.8)):
+            out["phases"].append("second-body-started-while-first-held")
+    try:
+        hold.unlink()
+    except FileNotFoundError:
+        pass
+    deadline = time.time() + 25
+    for pid in pids:
+        while pid not in exited:
+            p, st = os.waitpid(pid, os.WNOHANG)
+            if p:
+                exited[pid] = os.waitstatus_to_exitcode(st)
+            elif time.time() > deadline:
+                out["hang"] = True
+                os.kill(pid, signal.SIGKILL)
+                os.waitpid(pid, 0)
+                exited[pid] = -9
+            else:
+                time.sleep(0.005)
+    os.close(devnull)
+    for f in (held, release):
+        if f.exists():
+            f.unlink()
+    out["exits"] = [exited[p] for p in pids]
+    out["log"] = log()
+    out["state"] = observe(info)
+    return out
